@@ -2,6 +2,7 @@ import CedarVerif.Lemmas.PartialTable2
 import CedarVerif.Lemmas.PartialSound5
 import CedarVerif.Lemmas.PartialReauth
 import CedarVerif.Lemmas.PartialFull
+import CedarVerif.Lemmas.PartialBridge
 /-
 C13 — partial evaluation with unknowns is sound.  Property theorems only (helpers: Lemmas/Partial*.lean).
 Model: Cedar/Partial.lean (`pinterp`, `PartialResponse`, `reauthorize`).
@@ -142,5 +143,26 @@ example :
   · show p2.outcome req' [] ≠ .sat
     decide
   · rfl
+
+
+/-- **reauthorize_eq_fresh_frag**: the two results composed, without a soundness hypothesis.  For static policies
+whose conditions lie in the fragment of `pinterp_sound_partial`, a concrete store and a substitution σ that
+concretises the partial request: `reauthorize σ` returns the decision and determining policies of the fresh
+concrete authorization.  (`hfuel*`: neither pass exhausts the model's recursion budget — an outcome the driver
+reports explicitly and that never occurred; `hslot`: see the recorded finding.) -/
+theorem reauthorize_eq_fresh_frag (σ : Mapper) (req : Request) (es : Entities) (preq : PRequest) (ps : List Policy)
+    (hctx : (Value.record req.context).DRT) (hstore : StoreDRT es) (hC : Concretizes σ preq req)
+    (hfrag : ∀ p, p ∈ ps → p.env = [] ∧ Frag p.condition)
+    (hreq : (isAuthorizedCore [] preq (.ofConcrete es) ps).concretizeRequest σ = .ok (.ofConcrete req))
+    (hslot : (isAuthorizedCore [] preq (.ofConcrete es) ps).residualPoliciesPanic = false)
+    (hfuel1 : ∀ p, p ∈ ps → partialEvaluate [] preq (.ofConcrete es) p ≠ .stuck)
+    (hfuel2 : ∀ p, p ∈ ps → ∀ q, residualPolicy (partialEvaluate [] preq (.ofConcrete es) p) p = some q →
+      partialEvaluate σ (.ofConcrete req) (.ofConcrete es) q ≠ .stuck) :
+    ∃ pr2, (isAuthorizedCore [] preq (.ofConcrete es) ps).reauthorize σ (.ofConcrete es) = .ok pr2 ∧
+      pr2.decision = some (isAuthorized req es ps).decision ∧
+      pr2.concretize.decision = (isAuthorized req es ps).decision ∧
+      (∀ id, id ∈ pr2.concretize.reasons ↔ id ∈ (isAuthorized req es ps).reasons) :=
+  reauthorize_core σ preq (.ofConcrete es) ps req es hreq hslot
+    (fun p hp => policyAgrees_of_frag σ req es hctx hstore preq hC p (hfrag p hp).1 (hfrag p hp).2 (hfuel2 p hp) (hfuel1 p hp))
 
 end Cedar.C13
